@@ -286,6 +286,90 @@ def u_sample_weights(h, which):
             h.ensure('gradient[%d]' % j, h.eq(wq.gradient_scalar(X, y, w, Xw, j), qd.gradient_scalar(Xr, yr, w, Xwr, j)))
             h.ensure('lipschitz[%d]' % j, h.eq(wq.get_lipschitz(X, y)[j], qd.get_lipschitz(Xr, yr)[j]))
         h.ensure('intercept', h.eq(wq.intercept_update_step(y, Xw), qd.intercept_update_step(yr, Xwr)))
+        # ... and on CSC storage (every sparse accessor of the weighted datafit against the replicated plain one)
+        Xs, Xrs = h.csc(X), h.csc(Xr)
+        wqs, qds = wq, qd
+        wqs.initialize_sparse(Xs.data, Xs.indptr, Xs.indices, y)
+        qds.initialize_sparse(Xrs.data, Xrs.indptr, Xrs.indices, yr)
+        fa = wqs.full_grad_sparse(Xs.data, Xs.indptr, Xs.indices, y, Xw)
+        fb = qds.full_grad_sparse(Xrs.data, Xrs.indptr, Xrs.indices, yr, Xwr)
+        la = wqs.get_lipschitz_sparse(Xs.data, Xs.indptr, Xs.indices, y)
+        lb = qds.get_lipschitz_sparse(Xrs.data, Xrs.indptr, Xrs.indices, yr)
+        for j in range(p):
+            h.ensure('gradient_scalar_sparse[%d]' % j,
+                     h.eq(wqs.gradient_scalar_sparse(Xs.data, Xs.indptr, Xs.indices, y, Xw, j),
+                          qds.gradient_scalar_sparse(Xrs.data, Xrs.indptr, Xrs.indices, yr, Xwr, j)))
+            h.ensure('full_grad_sparse[%d]' % j, h.eq(fa[j], fb[j]))
+            h.ensure('lipschitz_sparse[%d]' % j, h.eq(la[j], lb[j]))
+
+
+def u_path_vs_fit_components(h, kind, positive, weighted):
+    """estimator.path(...) and estimator.fit(...) are two entry points to the same model: with BaseSolver.solve intercepted,
+    the datafit / penalty objects that path() hands to the solver have the class and every hyper-parameter (alpha aside,
+    which path() sets from its grid) of the ones fit() builds, and the solver has the same knobs"""
+    import skglm
+    from checks import estim as ES
+    import skglm.solvers.anderson_cd as acd
+    n, p = 3, 2
+    X = h.mat('X', n, p)
+    y = h.vec('y', n)
+    A = h.real('alpha')
+    h.assume(A > 0)
+    wts = None
+    if weighted:
+        wts = h.vec('wt', p)
+        h.assume(wts[0] >= 0, wts[1] >= 0)
+    if kind == 'Lasso':
+        est = skglm.Lasso(alpha=A, positive=positive, fit_intercept=False)
+    elif kind == 'WeightedLasso':
+        est = skglm.WeightedLasso(alpha=A, weights=wts, positive=positive, fit_intercept=False)
+    elif kind == 'ElasticNet':
+        est = skglm.ElasticNet(alpha=A, l1_ratio=h.constant(0.5), positive=positive, fit_intercept=False)
+    else:
+        est = skglm.MCPRegression(alpha=A, gamma=h.constant(3.0), weights=wts, positive=positive, fit_intercept=False)
+    calls = []
+
+    def result(k, call):
+        calls.append(call)
+        return ES.sym_result(h, p, tag='c%d_' % k)
+    with ES.sklearn_stubs(h):
+        with ES.intercept_solve(h, result):
+            ES.compat(est).fit(X, y)
+            est.path(X, y, alphas=h.arr([A]) if h.mode == 'sym' else np.array([float(A)]))
+    h.ensure('two-solves', len(calls) == 2)
+    if len(calls) < 2:
+        return
+    fa, pa = calls[0], calls[1]
+
+    def attrs(o):
+        try:
+            d = dict(vars(o))
+        except TypeError:            # jitted replay: a jitclass instance exposes its fields through its numba type
+            d = {k: getattr(o, k) for k in o._numba_type_.struct.keys()}
+        return {k: v for k, v in d.items() if not k.startswith('_')}
+    for role in ('datafit', 'penalty'):
+        a, b = fa[role], pa[role]
+        h.ensure('%s-class' % role, type(a).__name__ == type(b).__name__)
+        da, db = attrs(a), attrs(b)
+        ok = h.true() if set(da) == set(db) else h.false()
+        for k in da:
+            if k not in db:
+                continue
+            va, vb = da[k], db[k]
+            if isinstance(va, np.ndarray) or isinstance(vb, np.ndarray):
+                la, lb = list(np.asarray(va, dtype=object).ravel()), list(np.asarray(vb, dtype=object).ravel())
+                ok = h.and_(ok, h.true() if len(la) == len(lb) else h.false())
+                for x1, x2 in zip(la, lb):
+                    ok = h.and_(ok, h.eq(x1, x2))
+            elif isinstance(va, (bool, str, type(None))) or isinstance(vb, (bool, str, type(None))):
+                ok = h.and_(ok, h.true() if va == vb else h.false())
+            else:
+                ok = h.and_(ok, h.eq(va, vb))
+        h.ensure('%s-hyper-parameters' % role, ok)
+    sa, sb = fa['solver'], pa['solver']
+    same = all(getattr(sa, k) == getattr(sb, k) for k in ('fit_intercept', 'ws_strategy') if hasattr(sa, k))
+    h.ensure('solver-knobs', type(sa).__name__ == type(sb).__name__ and same)
+    h.observe('x', A)
 
 
 def u_efron_vs_breslow(h, tm, s):
@@ -397,6 +481,11 @@ def units(tier):
         us.append(Unit('C14/K/region[%s]' % which, u_mcp_scad_regions, dict(which=which), wall_s=60))
     for which in ('unit', 'integer'):
         us.append(Unit('C14/K/sample-weights[%s]' % which, u_sample_weights, dict(which=which), wall_s=60))
+    for kind, weighted in (('Lasso', False), ('WeightedLasso', True), ('ElasticNet', False), ('MCPRegression', False),
+                           ('MCPRegression', True)):
+        for pos in (False, True):
+            us.append(Unit('C14/E/path-vs-fit-components[%s,weights=%s,positive=%s]' % (kind, weighted, pos),
+                           u_path_vs_fit_components, dict(kind=kind, positive=pos, weighted=weighted), wall_s=60))
     for tm in ([0, 1], [1, 0], [0, 1, 2], [2, 0, 1], [1, 2, 0]):
         for s in itertools.product([0, 1], repeat=len(tm)):
             if not any(s) or (q and len(tm) == 3 and sum(s) == 1):
